@@ -808,14 +808,20 @@ impl MemoryLoc {
                     if self.offset != 0 {
                         addr = builder.ins().iadd_imm(addr, self.offset as i64);
                     }
+                    // copy exactly `size` bytes: copying the stride would also overwrite whatever
+                    // follows the value (e.g. the tag byte of the sum type this is the payload of,
+                    // or the next struct field).
+                    // `emit_small_memory_copy` wants the size to be a multiple of the alignment it
+                    // is told about, so only claim the largest power of two that divides the size
+                    let size = ty.size() as u64;
+                    let copy_align = (size & size.wrapping_neg()).min(ty.align() as u64).max(1) as u8;
                     builder.emit_small_memory_copy(
                         module.target_config(),
                         addr,
                         val,
-                        // this has to be stride for some reason, it can't be size
-                        ty.stride() as u64,
-                        ty.align() as u8,
-                        ty.align() as u8,
+                        size,
+                        copy_align,
+                        copy_align,
                         true,
                         MemFlags::trusted(),
                     )
@@ -826,7 +832,7 @@ impl MemoryLoc {
                     let mut off = 0;
                     macro_rules! mem_cpy_loop {
                         ($width:expr) => {
-                            while (off + $width) <= (ty.stride() as i32 / $width) * $width {
+                            while (off + $width) <= (ty.size() as i32 / $width) * $width {
                                 let bytes = builder.ins().load(
                                     cranelift::codegen::ir::Type::int_with_byte_size($width)
                                         .unwrap(),
